@@ -200,7 +200,7 @@ def parts(c, env=None):
 def inventory(facts):
     """one row per call of a structural operation (VERBS) inside a library class: the comparison literals known to hold when the
     call is reached (astu.reach: nested ifs, guard clauses, else branches, loop conditions, && chains all give the same literals)"""
-    from astu import reach_tagged, induction_locals, inlined_body, stmts_of
+    from astu import reach_tagged, induction_locals, inlined_body, stmts_of, struct_like
     fns = functions_by(facts)
     by_pat = {f["pat"]: f for f in fns.values()}
     # statement-level calls of void members of the same class are seen through (astu.inlined_body), and a function that is only
@@ -217,7 +217,7 @@ def inventory(facts):
                 cal = by_pat.get(c.get("cpat"))
                 if cal is not None and cal is not f and cal.get("body") is not None and cal.get("rect") == f.get("rect") and cal.get("ret") == "void" \
                         and len(cal.get("params", [])) == len(c.get("args", [])) and (c.get("obj") is None or strip(c["obj"]).get("k") == "This") \
-                        and not VERBS.match(cal.get("name") or "") and cal.get("access", 2) != 0:
+                        and not VERBS.match(cal.get("name") or "") and (cal.get("access", 2) != 0 or cal.get("rect") in struct_like(by_pat)):
                     helper_pats.add(cal["pat"])
         walk(f["body"], hv)
     rows = {}
